@@ -375,3 +375,40 @@ fn compress_literals(
         None
     }
 }
+
+#[cfg(ruzstd_verif)]
+pub mod verif {
+    use crate::bit_io::BitWriter;
+    use alloc::vec::Vec;
+    pub fn encode_literal_length(len: u32) -> (u8, u32, usize) {
+        super::encode_literal_length(len)
+    }
+    pub fn encode_match_len(len: u32) -> (u8, u32, usize) {
+        super::encode_match_len(len)
+    }
+    pub fn encode_offset(len: u32) -> (u8, u32, usize) {
+        super::encode_offset(len)
+    }
+    pub fn encode_seqnum(seqnum: usize) -> Vec<u8> {
+        let mut out = Vec::new();
+        let mut writer = BitWriter::from(&mut out);
+        super::encode_seqnum(seqnum, &mut writer);
+        writer.flush();
+        out
+    }
+    pub fn raw_literals(literals: &[u8]) -> Vec<u8> {
+        let mut out = Vec::new();
+        let mut writer = BitWriter::from(&mut out);
+        super::raw_literals(literals, &mut writer);
+        writer.flush();
+        out
+    }
+    /// returns (bytes written, whether a new table was returned)
+    pub fn compress_literals(literals: &[u8]) -> (Vec<u8>, bool) {
+        let mut out = Vec::new();
+        let mut writer = BitWriter::from(&mut out);
+        let t = super::compress_literals(literals, None, &mut writer);
+        writer.flush();
+        (out, t.is_some())
+    }
+}
